@@ -160,6 +160,10 @@ class Program:
                     b.key = cname + "::" + b.key
                 self.bodies[b.key] = b
                 self.by_crate[cname].append(b)
+        from . import synth
+
+        for k, b in synth.build().items():
+            self.bodies.setdefault(k, b)
         self.externs = {}
         for data in self.crates.values():
             self.externs.update(data["externs"])
